@@ -1,6 +1,6 @@
 """Generation, execution and comparison of `kick` cases (KickMap::updateSM + apply) shared by
 C01, C02, C08, C17.  Every random choice comes from ctx.rng."""
-import math
+import math, struct, random
 from fractions import Fraction
 from vp_common import *
 
@@ -84,9 +84,13 @@ class KickCase:
                     note=self.note, offs=[fhex(o) for o in self.offs[:8]], data_len=len(self.data))
 
     def replay(self):
-        return dict(kind="kick", id=self.cid, dir=self.dir, n=self.n, nb=self.nb, it=self.it,
-                    stream=self.stream, note=self.note, offs=[fhex(o) for o in self.offs],
-                    data=[fhex(v) for v in self.data])
+        d = dict(kind="kick", id=self.cid, dir=self.dir, n=self.n, nb=self.nb, it=self.it,
+                 stream=self.stream, note=self.note, offs=[fhex(o) for o in self.offs],
+                 data=[fhex(v) for v in self.data])
+        if getattr(self, "history", None) is not None:
+            # a step of a sequence on ONE KickMap object: the offset vectors of the earlier swapOffset()+apply() steps
+            d["history"] = [[fhex(o) for o in offs] for offs in self.history]
+        return d
 
 
 def _data(rng, n, nb, kind, exact):
@@ -185,10 +189,192 @@ def gen_cases(ctx, count, streams=("exact", "whole", "tol", "boundary"), nbs=(1,
     return cases
 
 
+def with_rng(ctx, salt, f, *a, **k):
+    """runs a generator on its own PRNG (derived from the seed) so that a stream added later does not shift the draws of
+    the streams that existed before"""
+    saved = ctx.rng
+    ctx.rng = random.Random(ctx.seed * 1000003 + salt)
+    try:
+        return f(*a, **k)
+    finally:
+        ctx.rng = saved
+
+
+def edge_offsets(rng, n, it, cnt):
+    """offsets aimed at the case splits of Proofs/UpdateSMGenP.v (usm_entry_model): the float sum n/2 + o has integer part
+    exactly -2..1 (guard lower edge; -1 < sum < 0 truncates to -0 and passes the guard with a negative fraction), c-1..c+1
+    (stencil touching cell 0), n-it+c-1..n-it+c+1 (stencil touching cell n-1), n-2..n+1 (guard upper edge: integer part
+    exactly size-1 / size), far negative (beyond -n/2: the conversion the guard protects), each with fraction 0, 1/4, 3/4"""
+    h, c = n // 2, centre(it)
+    ints = [-2, -1, 0, 1, c - 1, c, c + 1, n - it + c - 1, n - it + c, n - it + c + 1, n - 2, n - 1, n, n + 1,
+            -h - 3, -n - 1, -2 * n]
+    cand = [(j, f) for j in ints for f in (0.0, 0.25, 0.75)]
+    rng.shuffle(cand)
+    return [float(j - h) + f for (j, f) in (cand[i % len(cand)] for i in range(cnt))]
+
+
+EDGE_SIZES = [4, 5, 7, 8, 9, 12, 15, 16, 17, 24, 31, 32, 33]
+
+
+def edge_cases(ctx, count, nbs=(1, 2), prefix="e"):
+    """kick cases on the boundaries of the generated updateSM body (odd and even sizes, it = 1..4 in turn)"""
+    rng = ctx.rng
+    cases = []
+    for i in range(count):
+        n = EDGE_SIZES[(i // 4) % len(EDGE_SIZES)] if i < 4 * len(EDGE_SIZES) else rng.choice(EDGE_SIZES)
+        it = 1 + i % 4
+        nb = rng.choice(nbs)
+        d = rng.choice(["x", "y"])
+        kind = rng.choice(["signed", "nonneg", "impulse"])
+        data = _data(rng, n, nb, kind, True)
+        offs = edge_offsets(rng, n, it, n * nb)
+        if d == "x":
+            offs = offs[:n] * nb
+        cases.append(KickCase("%s%d" % (prefix, i), d, n, nb, it, offs, data, "edges", kind))
+        ctx.count("kick:edges")
+        ctx.count("kick:it%d" % it)
+        ctx.count("kick:%s-size" % ("odd" if n % 2 else "even"))
+    return cases
+
+
+# ------------------------------------------------------------------ offsets next to whole numbers (ulp stream)
+
+def f32_step(x, k):
+    """the binary32 value k steps above (k > 0) / below (k < 0) the binary32 value x (through zero and the denormals)"""
+    b = struct.unpack("<i", struct.pack("<f", x))[0]
+    if b < 0:
+        b = -(b & 0x7fffffff)
+    b += k
+    bits = (0x80000000 | (-b)) if b < 0 else b
+    return struct.unpack("<f", struct.pack("<I", bits))[0]
+
+
+def ulp_candidates(n):
+    """offsets 1, 2, 3 ulp below and above whole numbers - ulp of the float SUM n/2+offset (the sum just misses / just
+    reaches the next whole number) and ulp of the OFFSET itself (much finer: the sum then rounds to the whole number, so
+    integer and fractional part must both come from the rounded sum) - and tiny offsets down to the denormals"""
+    h = n // 2
+    out = []
+    for k in range(-min(3, h - 1), min(3, n - h - 2) + 1):
+        s = float(h + k)
+        for j in (1, 2, 3):
+            for sg in (1, -1):
+                out.append((f32(f32_step(s, sg * j) - h), "sum%+d" % (sg * j)))
+                out.append((f32_step(float(k), sg * j), "off%+d" % (sg * j)))
+    out += [(f32(v), "tiny") for v in (1e-30, -1e-30, 1e-40, -1e-40, 1e-9, -1e-9, 6e-8, -6e-8)]
+    return out
+
+
+def ulp_cases(ctx, count, nbs=(1, 2), prefix="u"):
+    """kick cases whose rows are displaced by the ulp candidates (table and output against the model, tolerance stream)"""
+    rng = ctx.rng
+    cases = []
+    for i in range(count):
+        n = rng.choice(EDGE_SIZES[2:])
+        it = 1 + i % 4
+        nb = rng.choice(nbs)
+        d = rng.choice(["x", "y"])
+        cand = ulp_candidates(n)
+        data = _data(rng, n, nb, rng.choice(["signed", "nonneg"]), True)
+        offs = [rng.choice(cand)[0] for _ in range(n * nb)]
+        if d == "x":
+            offs = offs[:n] * nb
+        cases.append(KickCase("%s%d" % (prefix, i), d, n, nb, it, offs, data, "ulp", "ulp"))
+        ctx.count("kick:ulp")
+    return cases
+
+
+# ------------------------------------------------------------------ histories on one KickMap object
+
+class KickSeq:
+    """several swapOffset()+apply() steps on ONE KickMap object (harness command `kickseq`); the model has no state, so
+    every step is compared with (and its oracles evaluated like) a fresh-map case"""
+    def __init__(self, cid, steps):
+        self.cid, self.steps = cid, steps
+        for k, s_ in enumerate(steps):
+            s_.cid = "%s_s%d" % (cid, k)
+            s_.history = [t.offs for t in steps[:k]]
+
+    def impl_text(self):
+        c = self.steps[0]
+        t = ["kickseq %s %s %d %d %d %d\n" % (self.cid, c.dir, c.n, c.nb, c.it, len(self.steps))]
+        for s_ in self.steps:
+            t.append(" ".join(fhex(o) for o in s_.offs) + "\n" + " ".join(fhex(v) for v in s_.data) + "\n")
+        return "".join(t)
+
+    def model_text(self):
+        return "".join(s_.model_text() for s_ in self.steps)
+
+
+def seq_cases(ctx, count, prefix="q"):
+    """histories aimed at state that survives an update: rows whose offset is exactly 0 (+0 and -0) in one step, then the
+    whole vector 0, then non-zero whole shifts (whole-shift oracle), then a polynomial field under a fractional shift
+    (polynomial oracle) - all on the same map"""
+    rng = ctx.rng
+    seqs = []
+    for i in range(count):
+        n = rng.choice(range(8, 21))
+        it = 1 + i % 4
+        nb = rng.choice([1, 2])
+        d = rng.choice(["x", "y"])
+        h = n // 2
+        cnt = n * nb
+
+        def vec(gen):
+            v = [gen() for _ in range(cnt)]
+            return v[:n] * nb if d == "x" else v
+        nonzero = lambda: float(rng.choice([m for m in range(-h, n - h) if m != 0]))
+        steps = [
+            KickCase("", d, n, nb, it, vec(lambda: rng.choice([0.0, -0.0, nonzero()])), _data(rng, n, nb, "full", True), "whole", "seq"),
+            KickCase("", d, n, nb, it, [0.0] * cnt, _data(rng, n, nb, "signed", True), "whole", "seq"),
+            KickCase("", d, n, nb, it, vec(nonzero), _data(rng, n, nb, "full", rng.random() < 0.5), "whole", "seq"),
+        ]
+        exact = it < 4
+        o = rng.randint(-2, 2) + rng.randint(1, 15) / 16.0 if exact else f32(rng.uniform(-3, 3))
+        deg = rng.randint(0, it - 1)
+        coef = [rng.randint(-3, 3) for _ in range(deg)] + [rng.choice([-3, -2, -1, 1, 2, 3])]
+        data = [0.0] * (nb * n * n)
+        for b in range(nb):
+            for x in range(n):
+                for y in range(n):
+                    t = y if d == "y" else x
+                    data[b * n * n + x * n + y] = float(sum(c_ * t ** k for k, c_ in enumerate(coef)))
+        pc = KickCase("", d, n, nb, it, [o] * cnt, data, "exact" if exact else "tol", "seq-poly")
+        pc.coef = coef
+        steps.append(pc)
+        seqs.append(KickSeq("%s%d" % (prefix, i), steps))
+        ctx.count("kick:sequence-on-one-map")
+    return seqs
+
+
+def downgrade_usm(ctx, coq, dis, validated):
+    """DESIGN 2.2 for translate/updatesm2coq.py: when it no longer recognises KickMap::updateSM (a restructuring outside
+    its idiom) the last-good Gen_UpdateSM.v keeps the development building.  If then every theorem still checks (about the
+    last-good definitions) and the kick correspondence of this run - the table _hinfo entry by entry against the model the
+    last-good definitions were proved equal to, on the streams aimed at the case splits, and every oracle - shows no
+    disagreement and no unlisted violation, the property is shown through tie 2 as before the translator existed and the
+    downgrade is recorded in the evidence.  `validated`: whether this run compared kick tables at all."""
+    failed = [g for g, st_ in coq["gen"].items() if st_.startswith("failed")]
+    if failed != ["Gen_UpdateSM"]:
+        return coq
+    kf = load_known()
+    unlisted = [v for v in ctx.violations if match_known(kf, v) is None]
+    if coq["make_ok"] and coq["props"]["ok"] and not coq["forbidden"] and coq["extract_ok"] and not dis and not unlisted \
+            and validated and ctx.evaluations > 0:
+        ctx.extra["translators"]["Gen_UpdateSM"] = "downgraded-to-correspondence (" + coq["gen"]["Gen_UpdateSM"][:200] + ")"
+        ctx.notes.append("Gen_UpdateSM: translator failed; the last-good generated definitions (proved equal to the kick model) agree "
+                         "with the implementation's table on every kick case of this run, the boundary streams included, and every "
+                         "oracle holds: downgraded to tie 2")
+        return dict(coq, ok=True)
+    return coq
+
+
 def run_cases(ctx, cases):
     """-> {cid: dict(impl_table, impl_out, model_table, model_out, defined)} plus raw status"""
     tg = ctx.build()
-    rc, out, err = run_driver(tg["impl_kick"], "".join(c.impl_text() for c in cases))
+    units = cases
+    cases = [s_ for c in units for s_ in (c.steps if isinstance(c, KickSeq) else [c])]
+    rc, out, err = run_driver(tg["impl_kick"], "".join(c.impl_text() for c in units))
     if rc != 0:
         raise RuntimeError("impl_driver failed rc=%d: %s" % (rc, err[-2000:]))
     impl = parse_cases(out)
@@ -225,7 +411,7 @@ def compare_case(c, r):
             if isinstance(iw, str):
                 dis.append(("table-nonfinite", dict(row=i, j=j, impl=iw)))
                 continue
-            tol = 0 if c.stream in ("exact", "whole") and it < 4 else Fraction(8, 2 ** 24) * max(1, abs(mw))
+            tol = 0 if c.stream in ("exact", "whole", "edges") and it < 4 else Fraction(8, 2 ** 24) * max(1, abs(mw))
             if ii != mi or abs(iw - mw) > tol:
                 dis.append(("table", dict(row=i, j=j, impl=[ii, str(iw)], model=[mi, str(mw)])))
                 if len(dis) > 5:
@@ -242,7 +428,7 @@ def compare_case(c, r):
             wsum = sum(abs(r["model_table"][ti * it + j][1]) for j in range(it))
             row = c.row(b, k)
             mx = max(abs(v) for v in row)
-            exact = c.stream == "exact" or (c.stream == "whole")
+            exact = c.stream in ("exact", "whole", "edges")
             tol = 0 if exact and it < 4 else Fraction(K, 2 ** 24) * wsum * mx
             if c.stream == "whole":
                 tol = 0
